@@ -4,6 +4,13 @@ import json, os, sys
 V = os.path.dirname(os.path.dirname(os.path.abspath(__file__)))
 
 CLAIMED = {
+    "C05": dict(
+        technique="TLA+ program-layer model of the qmail-smtpd DATA recogniser checked against a declarative RFC 5321 receiver on every prefix by TLC + TLC validation of records from real qmail-smtpd sessions (read splits by shim, round trip through the real qmail-remote)",
+        text="TLC checks that the transcribed five-state recogniser agrees with the reference receiver RefRecv on every prefix of every stream up to a "
+             "length bound and that decode(encode(m)) = m; every real SMTP session (all short streams, split reads, trailing command bytes, random "
+             "long streams, payloads produced by the real client) is a record judged by TLC with the monitor DecVerdict.",
+        note="alphabet {CR,LF,'.',x}; the QMAILQUEUE stand-in records what the daemon hands to the queue; lines '.' CR x are left unconstrained (DESIGN 6.3)",
+        design="5 C05"),
     "C06": dict(
         technique="TLA+ program-layer model of qmail-remote blast() checked exhaustively by TLC + TLC validation of records from the real encoder (function seam and qmail-remote binary) against the RFC 5321 receiver monitor",
         text="TLC explores the transcribed encoder over every message up to a length bound (invariant EncodingSound); every transmission "
